@@ -28,6 +28,7 @@ func runC10(c *fw.Ctx) {
 	r102(c)
 	r103(c)
 	r104(c)
+	r105(c)
 }
 
 func findStdFunc(p *packages.Package, recv, name string) *ast.FuncDecl {
@@ -783,4 +784,53 @@ func hasLabelValue(info *types.Info, fd *ast.FuncDecl) bool {
 	check(fd.Type.Params)
 	check(fd.Recv)
 	return found
+}
+
+// R10.5: labels are function-scoped (Go spec, Labeled statements: "the scope of a label is the body of the
+// function in which it is declared and excludes the body of any nested function"), and so is the set of
+// panic calls the missing-return analysis consults. A function body - closures included - therefore starts
+// with empty tables: in startFuncBody the first value given to current.labels and current.panicCalls is nil.
+// Otherwise a closure re-using an outer label name is reported as a duplicate and outer labels used after
+// the closure are reported as unused when the closure ends.
+func r105(c *fw.Ctx) {
+	const rule = "R10.5"
+	fd, p := needDecl(c, rule, "(*CodeBuilder).startFuncBody")
+	if fd == nil {
+		return
+	}
+	info := p.TypesInfo
+	first := map[string]ast.Expr{}
+	inspectFunc(fd, func(n ast.Node) bool {
+		as, ok := n.(*ast.AssignStmt)
+		if !ok || len(as.Lhs) != len(as.Rhs) {
+			return true
+		}
+		for i, l := range as.Lhs {
+			se, ok := unparen(l).(*ast.SelectorExpr)
+			if !ok {
+				continue
+			}
+			fv, ok := info.Uses[se.Sel].(*types.Var)
+			if !ok || !fv.IsField() {
+				continue
+			}
+			if inner, ok := unparen(se.X).(*ast.SelectorExpr); !ok || inner.Sel.Name != "current" {
+				continue
+			}
+			if _, seen := first[fv.Name()]; !seen {
+				first[fv.Name()] = as.Rhs[i]
+			}
+		}
+		return true
+	})
+	for _, f := range []string{"labels", "panicCalls"} {
+		e := first[f]
+		isNil := false
+		if e != nil {
+			if tv, ok := info.Types[e]; ok && tv.IsNil() {
+				isNil = true
+			}
+		}
+		c.Check(isNil, rule, "startFuncBody/fresh-"+f, fd.Pos(), "a function body must start with an empty %s table: the enclosing function's %s would otherwise be visible inside (and checked at the end of) the closure", f, f)
+	}
 }
